@@ -101,6 +101,21 @@ class Gen:
         if insts and (depth > 6 or r.random() < 0.3):
             return r.choice(insts)
         cls = _instantiable(rec.pyclass)
+        try:
+            import pydantic
+            is_model = issubclass(cls, pydantic.BaseModel)
+        except Exception:
+            is_model = False
+        if is_model:
+            vals = {}
+            for f, fty in E.U.all_fields(ty.cls).items():
+                try:
+                    vals[f] = self.value(fty, f, depth + 1)
+                except Skip:
+                    vals[f] = None
+            obj = cls.model_construct(**vals)
+            insts.append(obj)
+            return obj
         obj = object.__new__(cls)
         insts.append(obj)
         for f, fty in E.U.all_fields(ty.cls).items():
